@@ -416,7 +416,9 @@ def c09_returns_promptly(ctx, e, bound=2.0):
     for r in e.invocations:
         t_set = {}
         for x in r.events:
-            if x["ev"] == "EvSet" and x.get("e") not in t_set:
+            if x["ev"] == "ExStart":
+                t_set.pop(x.get("e"), None)       # a nested call is executed again when its branch is resubmitted: a new decision
+            elif x["ev"] == "EvSet" and x.get("e") not in t_set:
                 t_set[x.get("e")] = x["t"]
             elif x["ev"] == "ExReturn" and x.get("e") in t_set:
                 dt = x["t"] - t_set[x["e"]]
